@@ -58,6 +58,10 @@ CATALOGUE = {
     'B7': '=SUM(first_row)',
     'C7': '=one_cell*2',
     'D7': '=SUM(two_areas)',
+    # the bounded twins of what the unbounded references below are bound to,
+    # built first (the used area of the input sheet is A1:B3)
+    'A13': f'=SUM({QIN}!A1:A3)',
+    'B13': f'=MAX({QIN}!A1:B3)+COUNT({QIN}!A1:B1)',
     'A8': f'=SUM({QIN}!A:A)',
     'B8': f'=COUNT({QIN}!1:1)+MAX({QIN}!A:B)',
     'C8': '=ROW(C2)+COLUMN(C2)+ROW()+COLUMN()',
